@@ -60,7 +60,25 @@ def gen(rng):
         lst[i] = lst[i] + rng.choice([50, 100])
         dev = [side, i]
     kind = rng.choice(["seq", "seq", "seq", "seq", "seq_vs_single", "single_vs_seq"])
-    return {"res": res, "ref": ref, "dev": dev, "ign": rng.random() < 0.4, "force": rng.random() < 0.4, "kind": kind}
+    container = "xdmf" if (rng.random() < 0.3 and all(v < 100 for v in res + ref)) else "pvd"
+    return {"res": res, "ref": ref, "dev": dev, "ign": rng.random() < 0.4, "force": rng.random() < 0.4, "kind": kind,
+            "container": container}
+
+
+def write_xdmf(path, variants):
+    """XDMF time series (meshio TimeSeriesWriter, XML data) with the same per-step fields as write_step"""
+    from meshio.xdmf import TimeSeriesWriter
+    pts = np.array([[0.0, 0.0, 0.0], [1.0, 0.0, 0.0], [1.0, 1.0, 0.0], [0.0, 1.0, 0.0]])
+    cwd = os.getcwd()
+    os.chdir(os.path.dirname(path))
+    try:
+        with TimeSeriesWriter(os.path.basename(path), data_format="XML") as w:
+            w.write_points_cells(pts, [("quad", np.array([[0, 1, 2, 3]]))])
+            for i, v in enumerate(variants):
+                w.write_data(float(i), point_data={"u": np.array([float(v), 1.0, 2.0, 3.0]), "marker": np.array([i] * 4, dtype=np.int32)},
+                             cell_data={"c": [np.array([float(v % 7)])]})
+    finally:
+        os.chdir(cwd)
 
 
 def run_impl(c, workdir, idx):
@@ -73,9 +91,13 @@ def run_impl(c, workdir, idx):
             p = os.path.join(d, f"{side}_{i}.vtu")
             write_step(p, i, v)
             steps.append(os.path.basename(p))
-        pvd = os.path.join(d, f"{side}.pvd")
-        V.write_pvd(pvd, steps)
-        files[side] = pvd
+        if c.get("container") == "xdmf":
+            files[side] = os.path.join(d, f"{side}.xdmf")
+            write_xdmf(files[side], c[side])
+        else:
+            pvd = os.path.join(d, f"{side}.pvd")
+            V.write_pvd(pvd, steps)
+            files[side] = pvd
     if c["kind"] == "seq_vs_single":
         files["ref"] = os.path.join(d, "ref_0.vtu")
     if c["kind"] == "single_vs_seq":
@@ -132,6 +154,9 @@ def iteration_checks(ctx, n_cases):
             steps.append(os.path.basename(p))
         pvd = os.path.join(d, "s.pvd")
         V.write_pvd(pvd, steps)
+        if k % 3 == 2:
+            pvd = os.path.join(d, "s.xdmf")
+            write_xdmf(pvd, list(range(n)))
         seq = read(pvd)
         partial = rng.randint(0, n)          # consume `partial` steps first, then abandon the generator
         it = iter(seq)
@@ -150,7 +175,8 @@ def iteration_checks(ctx, n_cases):
         cursor = max(partial - 1, 0)
         exprs.append(f"runiter {clist([cnat(i) for i in range(n)], 'nat')} {cnat(cursor)}")
         impls.append((first, second))
-        metas.append({"steps": n, "partially_consumed": partial, "number_of_steps": seq.number_of_steps})
+        metas.append({"steps": n, "partially_consumed": partial, "number_of_steps": seq.number_of_steps,
+                      "container": "xdmf" if pvd.endswith(".xdmf") else "pvd"})
     vals = ctx.coq_eval(HEADER, exprs, name="c15iter")
     for (first, second), val, meta in zip(impls, vals, metas):
         l1, l2 = val
@@ -197,6 +223,7 @@ def run(ctx):
         nontrivial = c["kind"] != "seq" or c["dev"] is not None or len(c["res"]) != len(c["ref"])
         ctx.case(c, nontrivial, sample={"case": c, "impl": im, "model": mo})
         ctx.count(f"kind:{c['kind']}")
+        ctx.count(f"container:{c.get('container', 'pvd')}")
         ctx.count(f"len:{len(c['res'])}/{len(c['ref'])}")
         ctx.count(f"opts:ign={c['ign']},force={c['force']}")
         if im["escaped"]:
